@@ -936,15 +936,29 @@ func init() {
 					}
 				}
 			}
+			// multi-line buffers (letters and newlines)
+			mlens := []int{2, 3}
+			if tier == "thorough" {
+				mlens = []int{1, 2, 3, 4}
+			}
+			for _, exit := range []string{"accept", "hold", "abort", "comment", "panic"} {
+				for _, n := range mlens {
+					j := mkJob(".ZZ_C11_Restore", shellSetup, "exit", exit, "len", itoa(n), "mode", "emacs", "alpha", "nl")
+					j.Reach = []string{"left-readline|still-editing"}
+					jobs = append(jobs, j)
+				}
+			}
 			return jobs
 		},
 		Assumptions: []string{
 			"the terminal's initial mode settings are symbolic (the four flag words, VMIN, VTIME) and live in the ioctl stub; width is symbolic in [3,12] so that wrapped and exactly-filled rows occur; prompt '> '; buffer of lower-case letters of the job's length, cursor anywhere",
 			"exit paths: accept-line, accept-and-hold, abort (Ctrl-C), end-of-file (Ctrl-D on an empty line), insert-comment, a user-registered command that panics (recovered by the caller); in emacs, vi-insert and vi-command",
-			"terminal output is interpreted by a VT100 model (cursor movement, CR/LF, erase, deferred autowrap, DECSCUSR) fed through the stdout stub; the display engine runs unstubbed; cursor-position queries are answered ESC[1;1R",
+			"terminal output is interpreted by a VT100 model (cursor movement, CR/LF, erase, deferred autowrap, DECSCUSR) fed through the stdout stub; the display engine runs unstubbed; cursor-position queries are answered with the model's true cursor",
+			"'a fresh row below the input' is read literally: column 0 of a row strictly below the last row of prompt + returned text on which nothing is printed (how many blank rows lie in between is not asserted)",
+			"multi-line jobs: buffers of letters and newlines in emacs mode; further lines start on rows of their own under the first; labels carry the shape of the buffer (number of newlines, wraps, row exactly filled)",
 		},
 		Stubs:  []string{"tty ioctls (symbolic termios, symbolic width)", "stdin = zzverif.Script", "stdout -> zzverif.VT"},
-		Bounds: map[string]string{"quick": "buffer lengths {0,1,3,6}, width 3..12, single-line buffers", "thorough": "buffer lengths up to 13"},
+		Bounds: map[string]string{"quick": "buffer lengths {0,1,3,6}, width 3..12; buffers with newlines of length 2, 3", "thorough": "buffer lengths up to 13; with newlines up to 4"},
 		Rule:   "one state per completed symbolic path (a path = a class of widths/cursor positions/termios values)",
 		IgnoreKinds: []string{"hang", "deadlock", "spin"},
 	}
